@@ -686,3 +686,27 @@ def capture_codec(mod, name):
         mod.deserialize_problem_as_url = orig_d
         mod.serialize_problem_as_url = orig_s
     return rec
+
+
+def check_puzzle_table(ctx, drv, objs):
+    """The driver's copy of Gen/PuzzleCombinators.lean must describe the live *_COMBINATOR objects.  The Gen file and the
+    driver binary are shared by all checks; if a concurrent check (e.g. another slice's mutation test on a scratch
+    repo) regenerated them in between, regenerate + rebuild once before judging."""
+    def stale():
+        outs = drv.run(["(pcomb %s)" % p for p in PUZZLES])
+        bad = []
+        for p, mo in zip(PUZZLES, outs):
+            live = comb_sx(objs[p][1])
+            got = core.parse_sx(mo)
+            if not isinstance(got, list) or core.sx(got[0]) != core.sx(core.parse_sx(live)):
+                bad.append((p, live, mo))
+        return bad
+    bad = stale()
+    if bad:
+        from . import sergen
+        sergen.gen_all()
+        core.lake_build(["CspuzModel.Properties." + ctx.prop, "cspuzdriver"])
+        ctx.notes.append("Gen/PuzzleCombinators.lean had been regenerated by a concurrent run; regenerated and rebuilt once")
+        bad = stale()
+    for p, live, mo in bad:
+        ctx.disagree("puzzle-table-stale", puzzle=p, live=live, table=mo)
